@@ -368,10 +368,10 @@ c09=[job("file-object-any-nametype","aucoalesce","VH_FileObject",["C09/"],{"nsys
      job("file-object","aucoalesce","VH_FileObject",["C09/"],{"nsys":3,"maxpaths":2},Q,bounds="SYSCALL (open|rename|unlink) + 1..2 PATH records, the selected one with a symbolic 16-bit st_mode (all 65536 values) and nametype NORMAL|CREATE|DELETE, the other PARENT"),
      job("file-object-5sys-3paths","aucoalesce","VH_FileObject",["C09/"],{"nsys":5,"maxpaths":3},T,bounds="5 syscalls (incl. mknod, mount) + 1..3 PATH records, symbolic st_mode"),
      job("single-record","aucoalesce","VH_Conservation",["C09/"],{"shape":0,"named":1},T,bounds="one record of 6 types with every subset of a 16-key pool"),
-     job("single-record-each-type","aucoalesce","VH_Conservation",["C09/"],{"shape":2},Q,bounds="one record of every type the normalisation table knows, carrying every key that type's normalisations name (subject/object/how/source_ip/has_fields) plus 7 common keys, minus at most one key; values plain tokens or IP literals"),
-     job("single-record-boundary-ids","aucoalesce","VH_Conservation",["C09/"],{"shape":0,"named":1,"boundaryvals":1},Q,bounds="one record of 6 types with every subset of {ses, auid, uid, gid, pid, ppid, result}, one of the ids carrying 4294967295 / -1 / 0 / unset / 4294967294"),
+     job("single-record-each-type","aucoalesce","VH_Conservation",["C09/"],{"shape":2,"attribute_by_value":1},Q,bounds="one record of every type the normalisation table knows, carrying every key that type's normalisations name (subject/object/how/source_ip/has_fields) plus 7 common keys, minus at most one key; values plain tokens or IP literals"),
+     job("single-record-boundary-ids","aucoalesce","VH_Conservation",["C09/"],{"shape":0,"named":1,"boundaryvals":1,"attribute_by_value":1},Q,bounds="one record of 6 types with every subset of {ses, auid, uid, gid, pid, ppid, result}, one of the ids carrying 4294967295 / -1 / 0 / unset / 4294967294; a warning excuses a missing value only if the same record with a plain token in its place draws fewer warnings"),
      job("single-record-anytype","aucoalesce","VH_Conservation",["C09/"],{"shape":0,"named":0,"npool":6},T,bounds="one record of a symbolic 16-bit type (EOE excluded: not an event on its own) with every subset of a 6-key pool (result, addr, acct, exe, syscall, x1)",max_paths=400000),
-     job("groups-2extra","aucoalesce","VH_Conservation",["C09/"],{"shape":1,"maxextra":2,"execve_extra":1},Q,bounds="SYSCALL first / other record first / no SYSCALL, plus 0..2 further records from {PATH, EXECVE, SOCKADDR, CWD/PROCTITLE/AVC/BPRM_FCAPS with optional key collision, a record whose Data() fails}, in any order"),
+     job("groups-2extra","aucoalesce","VH_Conservation",["C09/"],{"shape":1,"maxextra":2,"execve_extra":1,"attribute_by_value":1},Q,bounds="SYSCALL first / other record first / no SYSCALL, plus 0..2 further records from {PATH, EXECVE, SOCKADDR, CWD/PROCTITLE/AVC/BPRM_FCAPS with optional key collision, a record whose Data() fails}, in any order"),
      job("groups-3extra","aucoalesce","VH_Conservation",["C09/"],{"shape":1,"maxextra":3,"execve_extra":1},T,bounds="as above with 0..3 further records")]
 C["C09"]={"jobs":c09,"assumptions":COAL_ASSUME+["any non-empty Warnings excuses a lost field (which wording 'names the problem' is not for the check to decide)","at most one EXECVE and one SOCKADDR record per group"],
   "outside":["groups with more than 4-5 records","the regex tokenizer (C05/C12)","ECS fields"]}
